@@ -634,9 +634,18 @@ fn fam_symmetry(o: &mut Out, quick: bool, rng: &mut Rng) {
                 let mut a0 = c.clone();
                 a0.events = vec![];
                 a0.tags = vec!["reference_noev".into()];
-                let a0r = o.run(a0);
-                let b = o.run(v);
+                // (a) automatic first step (hinit), (b) first step given: the main loop alone
+                let a0r = o.run(a0.clone());
+                let b = o.run(v.clone());
                 o.pair("C13", "equal", &a0r, &b, "independent identical copies");
+                let fs = (xend - x0) * 1e-3;
+                a0.first_step = Some(fs);
+                a0.tags = vec!["reference_noev+first_step".into()];
+                v.first_step = Some(fs);
+                v.tags = vec![format!("copies{}+first_step", mcopies)];
+                let a1 = o.run(a0);
+                let b1 = o.run(v);
+                o.pair("C13", "equal", &a1, &b1, "independent identical copies, first step given");
             }
         }
     }
